@@ -96,13 +96,22 @@ impl Case {
 }
 
 pub fn random_shape(rng: &mut Rng, thorough: bool) -> Shape {
-    let n = if thorough { *rng.pick(&[8u32, 16, 32, 64]) } else { *rng.pick(&[8u32, 16, 32]) };
-    let b = rng.range(8, 17) as u32;
+    // one draw in twelve (one in six in the thorough tier) leaves the small grid: larger rings, many
+    // limbs, extreme radices, deep gadget decompositions, rank 4 - thresholds a small grid never crosses
+    let wide = rng.chance(if thorough { 170 } else { 85 });
+    let n = if wide {
+        *rng.pick(if thorough { &[32u32, 64, 128, 256][..] } else { &[32u32, 64, 128][..] })
+    } else if thorough {
+        *rng.pick(&[8u32, 16, 32, 64])
+    } else {
+        *rng.pick(&[8u32, 16, 32])
+    };
+    let b = if wide && rng.chance(500) { *rng.pick(&[4u32, 5, 6, 19, 21, 24, 28]) } else { rng.range(8, 17) as u32 };
     // radix patterns: all equal, exactly two of the three equal (each way), all different - the
     // cross-radix branches of ops and queries are keyed on different pairs
     let other = |rng: &mut Rng, not: &[u32]| -> u32 {
         loop {
-            let v = (b as i64 + rng.range(0, 6) as i64 - 3).clamp(6, 18) as u32;
+            let v = (b as i64 + rng.range(0, 6) as i64 - 3).clamp(if wide { 3 } else { 6 }, if wide { 30 } else { 18 }) as u32;
             if !not.contains(&v) {
                 return v;
             }
@@ -128,15 +137,15 @@ pub fn random_shape(rng: &mut Rng, thorough: bool) -> Shape {
             (b, x, y)
         }
     };
-    let size_in = rng.range(1, 4) as u32;
+    let size_in = if wide { rng.range(1, 9) as u32 } else { rng.range(1, 4) as u32 };
     let k_in = b_in * (size_in - 1) + rng.range(1, b_in as u64) as u32;
     let k_res = if rng.chance(500) {
         k_in
     } else {
-        let s = rng.range(1, 5) as u32;
+        let s = if wide { rng.range(1, 10) as u32 } else { rng.range(1, 5) as u32 };
         b_res * (s - 1) + rng.range(1, b_res as u64) as u32
     };
-    let dsize = rng.range(1, 3) as u32;
+    let dsize = if wide { rng.range(1, 5) as u32 } else { rng.range(1, 3) as u32 };
     let dnum = k_in.div_ceil(b_key * dsize).max(1);
     let min_key = dnum * dsize * b_key;
     let k_key = match rng.below(3) {
@@ -148,8 +157,8 @@ pub fn random_shape(rng: &mut Rng, thorough: bool) -> Shape {
     .max(b_key * dsize + 1);
     Shape {
         n,
-        rank_in: rng.range(1, 3) as u32,
-        rank_out: rng.range(1, 3) as u32,
+        rank_in: if wide { rng.range(1, 4) as u32 } else { rng.range(1, 3) as u32 },
+        rank_out: if wide { rng.range(1, 4) as u32 } else { rng.range(1, 3) as u32 },
         b_res,
         k_res,
         b_in,
@@ -157,7 +166,7 @@ pub fn random_shape(rng: &mut Rng, thorough: bool) -> Shape {
         b_key,
         k_key,
         dsize,
-        n_lwe: rng.range(3, 9) as u32,
+        n_lwe: if wide { rng.range(1, (n / 2 + 3) as u64) as u32 } else { rng.range(3, 9) as u32 },
         extra: rng.below(8) as u32,
         flags: rng.below(2) as u32,
         seed: rng.next(),
